@@ -104,3 +104,19 @@ package weighted_sum
 //@ wire WeightedSumAddedCriterion
 //@   property C01 C07 C20
 //@   json Weights=weights
+
+// ---- registered names (what a request must say to select this object; what error messages list)
+//@ func (*WeightedSumBiasListener).Identifier
+//@   property C07 C20
+//@   nopanic
+//@   ensures [name] result == "weightedSum"
+
+// the listener's ranking: every declared criterion once, ascending in the cumulated importance (the mapper closure above gives
+// weight x value per considered alternative)
+//@ func (*WeightedSumBiasListener).RankCriteriaAscending
+//@   property C15 C07 C16 C18 C19
+//@   requires [distinct] model.distinctCriteria(params.Criteria)
+//@   requires [valid] typeis(params.MethodParameters, weightedSumParams) && params.MethodParameters.(weightedSumParams).weightedCriteria != nil
+//@   ensures [every_criterion_once_ascending] result != nil && fresh(result) && fresh(*result) && len(*result) == len(params.Criteria)
+//@             && (forall k int :: 0 <= k && k < len(*result) ==> exists j int :: 0 <= j && j < len(params.Criteria) && (*result)[k].Criterion == params.Criteria[j])
+//@             && (forall i int, j int :: 0 <= i && i < j && j < len(*result) ==> (*result)[i].Id != (*result)[j].Id && (*result)[i].Weight <= (*result)[j].Weight)
